@@ -147,95 +147,150 @@ Local Open Scope Z_scope.
 
 (* WRITERS: (n, err, bytes handed to w.Write) of the translated T.WriteTo under an accepting writer
    = (count, nil, image) of the model, for every value *)
-Theorem C06_Boolean_write_translated : forall b : bool, C06gen.packet_Boolean_WriteTo_io b = wimg (wr TBool (VB b)).
-Proof. exact tie_Boolean_write. Qed.
-Theorem C06_Byte_write_translated : forall z : Z, C06gen.packet_Byte_WriteTo_io z = wimg (wr TByte (VZ z)).
-Proof. exact tie_Byte_write. Qed.
-Theorem C06_UnsignedByte_write_translated : forall z : Z, C06gen.packet_UnsignedByte_WriteTo_io z = wimg (wr TUByte (VZ z)).
-Proof. exact tie_UnsignedByte_write. Qed.
-Theorem C06_Short_write_translated : forall z : Z, C06gen.packet_Short_WriteTo_io z = wimg (wr TShort (VZ z)).
-Proof. exact tie_Short_write. Qed.
-Theorem C06_UnsignedShort_write_translated : forall z : Z, C06gen.packet_UnsignedShort_WriteTo_io z = wimg (wr TUShort (VZ z)).
-Proof. exact tie_UnsignedShort_write. Qed.
-Theorem C06_Int_write_translated : forall z : Z, C06gen.packet_Int_WriteTo_io z = wimg (wr TInt (VZ z)).
-Proof. exact tie_Int_write. Qed.
-Theorem C06_Long_write_translated : forall z : Z, C06gen.packet_Long_WriteTo_io z = wimg (wr TLong (VZ z)).
-Proof. exact tie_Long_write. Qed.
-Theorem C06_Float_write_translated : forall bits : Z, C06gen.packet_Float_WriteTo_io bits = wimg (wr TFloat (VZ bits)).
-Proof. exact tie_Float_write. Qed.
-Theorem C06_Double_write_translated : forall bits : Z, C06gen.packet_Double_WriteTo_io bits = wimg (wr TDouble (VZ bits)).
-Proof. exact tie_Double_write. Qed.
-Theorem C06_Angle_write_translated : forall z : Z, C06gen.packet_Angle_WriteTo_io z = wimg (wr TAngle (VZ z)).
-Proof. exact tie_Angle_write. Qed.
-Theorem C06_VarInt_write_translated : forall z : Z, C06gen.packet_VarInt_WriteTo_io z = wimg (wr TVarInt (VZ z)).
-Proof. exact tie_VarInt_write. Qed.
-Theorem C06_VarLong_write_translated : forall z : Z, C06gen.packet_VarLong_WriteTo_io z = wimg (wr TVarLong (VZ z)).
-Proof. exact tie_VarLong_write. Qed.
+(* the fixed-width types, in the order Boolean Byte UnsignedByte Short UnsignedShort Int Long Float Double Angle
+   (one theorem: one Print Assumptions traversal) *)
+Theorem C06_fixed_write_translated :
+  (forall b : bool, C06gen.packet_Boolean_WriteTo_io b = wimg (wr TBool (VB b)))
+  /\
+  (forall z : Z, C06gen.packet_Byte_WriteTo_io z = wimg (wr TByte (VZ z)))
+  /\
+  (forall z : Z, C06gen.packet_UnsignedByte_WriteTo_io z = wimg (wr TUByte (VZ z)))
+  /\
+  (forall z : Z, C06gen.packet_Short_WriteTo_io z = wimg (wr TShort (VZ z)))
+  /\
+  (forall z : Z, C06gen.packet_UnsignedShort_WriteTo_io z = wimg (wr TUShort (VZ z)))
+  /\
+  (forall z : Z, C06gen.packet_Int_WriteTo_io z = wimg (wr TInt (VZ z)))
+  /\
+  (forall z : Z, C06gen.packet_Long_WriteTo_io z = wimg (wr TLong (VZ z)))
+  /\
+  (forall bits : Z, C06gen.packet_Float_WriteTo_io bits = wimg (wr TFloat (VZ bits)))
+  /\
+  (forall bits : Z, C06gen.packet_Double_WriteTo_io bits = wimg (wr TDouble (VZ bits)))
+  /\
+  (forall z : Z, C06gen.packet_Angle_WriteTo_io z = wimg (wr TAngle (VZ z))).
+Proof.
+  repeat split.
+  - exact tie_Boolean_write.
+  - exact tie_Byte_write.
+  - exact tie_UnsignedByte_write.
+  - exact tie_Short_write.
+  - exact tie_UnsignedShort_write.
+  - exact tie_Int_write.
+  - exact tie_Long_write.
+  - exact tie_Float_write.
+  - exact tie_Double_write.
+  - exact tie_Angle_write.
+Qed.
+(* VarInt, VarLong, String, ByteArray, BitSet (in this order): the VarInt / VarLong encoders are C05's translated
+   WriteToBytes followed by w.Write(vi[:nn]); String / ByteArray / BitSet write VarInt(len) and then the payload *)
+Theorem C06_lenprefixed_write_translated :
+  (forall z : Z, C06gen.packet_VarInt_WriteTo_io z = wimg (wr TVarInt (VZ z)))
+  /\
+  (forall z : Z, C06gen.packet_VarLong_WriteTo_io z = wimg (wr TVarLong (VZ z)))
+  /\
+  (forall bs sp, (lenN bs < 2 ^ 62)%N -> C06gen.packet_String_WriteTo_io (map Z.of_N bs) = wimg (wr TString (VBytes bs sp)))
+  /\
+  (forall bs sp, (lenN bs < 2 ^ 62)%N -> C06gen.packet_ByteArray_WriteTo_io (map Z.of_N bs) = wimg (wr TByteArray (VBytes bs sp)))
+  /\
+  (forall zs sp, (lenN zs < 2 ^ 59)%N ->
+  C06gen.packet_BitSet_WriteTo_io zs = wimg (wr TBitSet (VList (map VZ zs) sp))).
+Proof.
+  repeat split.
+  - exact tie_VarInt_write.
+  - exact tie_VarLong_write.
+  - exact (fun bs _ => tie_String_write bs).
+  - exact (fun bs _ => tie_lenbytes_write bs).
+  - exact tie_BitSet_write.
+Qed.
 Theorem C06_Position_write_translated : forall x y z : Z, C06gen.packet_Position_WriteTo_io x z y = wimg (wr TPosition (VPos x y z)).
 Proof. exact tie_Position_write. Qed.
-Theorem C06_UUID_write_translated : forall bs sp, (lenN bs < 2 ^ 63)%N -> C06gen.packet_UUID_WriteTo_io (map Z.of_N bs) = wimg (wr TUUID (VBytes bs sp)).
-Proof. exact (fun bs _ => tie_UUID_write bs). Qed.
-Theorem C06_String_write_translated : forall bs sp, (lenN bs < 2 ^ 62)%N -> C06gen.packet_String_WriteTo_io (map Z.of_N bs) = wimg (wr TString (VBytes bs sp)).
-Proof. exact (fun bs _ => tie_String_write bs). Qed.
-Theorem C06_ByteArray_write_translated : forall bs sp, (lenN bs < 2 ^ 62)%N -> C06gen.packet_ByteArray_WriteTo_io (map Z.of_N bs) = wimg (wr TByteArray (VBytes bs sp)).
-Proof. exact (fun bs _ => tie_lenbytes_write bs). Qed.
-Theorem C06_PluginMessageData_write_translated : forall bs, (lenN bs < 2 ^ 63)%N -> C06gen.packet_PluginMessageData_WriteTo_io (map Z.of_N bs) = wimg (w_raw bs).
-Proof. exact tie_PluginMessageData_write. Qed.
-Theorem C06_FixedBitSet_write_translated : forall bs, (lenN bs < 2 ^ 63)%N -> C06gen.packet_FixedBitSet_WriteTo_io (map Z.of_N bs) = wimg (w_raw bs).
-Proof. exact tie_FixedBitSet_write. Qed.
-Theorem C06_BitSet_write_translated : forall zs sp, (lenN zs < 2 ^ 59)%N ->
-  C06gen.packet_BitSet_WriteTo_io zs = wimg (wr TBitSet (VList (map VZ zs) sp)).
-Proof. exact tie_BitSet_write. Qed.
+(* UUID, PluginMessageData, FixedBitSet: one w.Write of the bytes themselves *)
+Theorem C06_rawbytes_write_translated :
+  (forall bs sp, (lenN bs < 2 ^ 63)%N -> C06gen.packet_UUID_WriteTo_io (map Z.of_N bs) = wimg (wr TUUID (VBytes bs sp)))
+  /\
+  (forall bs, (lenN bs < 2 ^ 63)%N -> C06gen.packet_PluginMessageData_WriteTo_io (map Z.of_N bs) = wimg (w_raw bs))
+  /\
+  (forall bs, (lenN bs < 2 ^ 63)%N -> C06gen.packet_FixedBitSet_WriteTo_io (map Z.of_N bs) = wimg (w_raw bs)).
+Proof.
+  repeat split.
+  - exact (fun bs _ => tie_UUID_write bs).
+  - exact tie_PluginMessageData_write.
+  - exact tie_FixedBitSet_write.
+Qed.
 
 (* READERS: the translated T.ReadFrom (a Base.Dec.dec term) runs like the model's reader on every input made
    of bytes - outcome class, error class, value, count, rest *)
-Theorem C06_Boolean_read_translated : forall fuel old s, all_bytes s ->
-  fmapr inj_b (run_flat C06gen.packet_Boolean_ReadFrom_io s) = run_flat (read_f fuel TBool old) s.
-Proof. intros fuel old s. exact (tie_Boolean_read s). Qed.
-Theorem C06_Byte_read_translated : forall fuel old s, all_bytes s ->
-  fmapr inj_z (run_flat C06gen.packet_Byte_ReadFrom_io s) = run_flat (read_f fuel TByte old) s.
-Proof. intros fuel old s. exact (tie_Byte_read s). Qed.
-Theorem C06_UnsignedByte_read_translated : forall fuel old s, all_bytes s ->
-  fmapr inj_z (run_flat C06gen.packet_UnsignedByte_ReadFrom_io s) = run_flat (read_f fuel TUByte old) s.
-Proof. intros fuel old s. exact (tie_UnsignedByte_read s). Qed.
-Theorem C06_Short_read_translated : forall fuel old s, all_bytes s ->
-  fmapr inj_z (run_flat C06gen.packet_Short_ReadFrom_io s) = run_flat (read_f fuel TShort old) s.
-Proof. intros fuel old s. exact (tie_Short_read s). Qed.
-Theorem C06_UnsignedShort_read_translated : forall fuel old s, all_bytes s ->
-  fmapr inj_z (run_flat C06gen.packet_UnsignedShort_ReadFrom_io s) = run_flat (read_f fuel TUShort old) s.
-Proof. intros fuel old s. exact (tie_UnsignedShort_read s). Qed.
-Theorem C06_Int_read_translated : forall fuel old s, all_bytes s ->
-  fmapr inj_z (run_flat C06gen.packet_Int_ReadFrom_io s) = run_flat (read_f fuel TInt old) s.
-Proof. intros fuel old s. exact (tie_Int_read s). Qed.
-Theorem C06_Long_read_translated : forall fuel old s, all_bytes s ->
-  fmapr inj_z (run_flat C06gen.packet_Long_ReadFrom_io s) = run_flat (read_f fuel TLong old) s.
-Proof. intros fuel old s. exact (tie_Long_read s). Qed.
-Theorem C06_Float_read_translated : forall fuel old s, all_bytes s ->
-  fmapr inj_z (run_flat C06gen.packet_Float_ReadFrom_io s) = run_flat (read_f fuel TFloat old) s.
-Proof. intros fuel old s. exact (tie_Float_read s). Qed.
-Theorem C06_Double_read_translated : forall fuel old s, all_bytes s ->
-  fmapr inj_z (run_flat C06gen.packet_Double_ReadFrom_io s) = run_flat (read_f fuel TDouble old) s.
-Proof. intros fuel old s. exact (tie_Double_read s). Qed.
-Theorem C06_Angle_read_translated : forall fuel old s, all_bytes s ->
-  fmapr inj_z (run_flat C06gen.packet_Angle_ReadFrom_io s) = run_flat (read_f fuel TAngle old) s.
-Proof. intros fuel old s. exact (tie_Angle_read s). Qed.
-Theorem C06_UUID_read_translated : forall fuel old s, all_bytes s ->
-  fmapr inj_bytes (run_flat C06gen.packet_UUID_ReadFrom_io s) = run_flat (read_f fuel TUUID old) s.
-Proof. intros fuel old s. exact (tie_UUID_read s). Qed.
+(* the fixed-width types, in the order Boolean Byte UnsignedByte Short UnsignedShort Int Long Float Double Angle UUID *)
+Theorem C06_fixed_read_translated :
+  (forall fuel old s, all_bytes s ->
+  fmapr inj_b (run_flat C06gen.packet_Boolean_ReadFrom_io s) = run_flat (read_f fuel TBool old) s)
+  /\
+  (forall fuel old s, all_bytes s ->
+  fmapr inj_z (run_flat C06gen.packet_Byte_ReadFrom_io s) = run_flat (read_f fuel TByte old) s)
+  /\
+  (forall fuel old s, all_bytes s ->
+  fmapr inj_z (run_flat C06gen.packet_UnsignedByte_ReadFrom_io s) = run_flat (read_f fuel TUByte old) s)
+  /\
+  (forall fuel old s, all_bytes s ->
+  fmapr inj_z (run_flat C06gen.packet_Short_ReadFrom_io s) = run_flat (read_f fuel TShort old) s)
+  /\
+  (forall fuel old s, all_bytes s ->
+  fmapr inj_z (run_flat C06gen.packet_UnsignedShort_ReadFrom_io s) = run_flat (read_f fuel TUShort old) s)
+  /\
+  (forall fuel old s, all_bytes s ->
+  fmapr inj_z (run_flat C06gen.packet_Int_ReadFrom_io s) = run_flat (read_f fuel TInt old) s)
+  /\
+  (forall fuel old s, all_bytes s ->
+  fmapr inj_z (run_flat C06gen.packet_Long_ReadFrom_io s) = run_flat (read_f fuel TLong old) s)
+  /\
+  (forall fuel old s, all_bytes s ->
+  fmapr inj_z (run_flat C06gen.packet_Float_ReadFrom_io s) = run_flat (read_f fuel TFloat old) s)
+  /\
+  (forall fuel old s, all_bytes s ->
+  fmapr inj_z (run_flat C06gen.packet_Double_ReadFrom_io s) = run_flat (read_f fuel TDouble old) s)
+  /\
+  (forall fuel old s, all_bytes s ->
+  fmapr inj_z (run_flat C06gen.packet_Angle_ReadFrom_io s) = run_flat (read_f fuel TAngle old) s)
+  /\
+  (forall fuel old s, all_bytes s ->
+  fmapr inj_bytes (run_flat C06gen.packet_UUID_ReadFrom_io s) = run_flat (read_f fuel TUUID old) s).
+Proof.
+  repeat split.
+  - intros fuel old s. exact (tie_Boolean_read s).
+  - intros fuel old s. exact (tie_Byte_read s).
+  - intros fuel old s. exact (tie_UnsignedByte_read s).
+  - intros fuel old s. exact (tie_Short_read s).
+  - intros fuel old s. exact (tie_UnsignedShort_read s).
+  - intros fuel old s. exact (tie_Int_read s).
+  - intros fuel old s. exact (tie_Long_read s).
+  - intros fuel old s. exact (tie_Float_read s).
+  - intros fuel old s. exact (tie_Double_read s).
+  - intros fuel old s. exact (tie_Angle_read s).
+  - intros fuel old s. exact (tie_UUID_read s).
+Qed.
 Theorem C06_Position_read_translated : forall fuel old s, all_bytes s ->
   fmapr inj_pos (run_flat C06gen.packet_Position_ReadFrom_io s) = run_flat (read_f fuel TPosition old) s.
 Proof. intros fuel old s. exact (tie_Position_read s). Qed.
-Theorem C06_String_read_translated : forall fuel old s, all_bytes s ->
-  fmapr inj_bytes (run_flat (C06gen.packet_String_ReadFrom_io varint_rd) s) = run_flat (read_f fuel TString old) s.
-Proof. intros fuel old s. exact (tie_String_read s). Qed.
-Theorem C06_ByteArray_read_translated : forall fuel bs0 sp0 s, all_bytes s ->
+(* String, ByteArray, BitSet with VarInt.ReadFrom as a parameter instantiated with the model's read32 (the closed
+   forms, with the translated VarInt.ReadFrom, are C06_string/bytearray/bitset_read_closed below) *)
+Theorem C06_lenprefixed_read_translated :
+  (forall fuel old s, all_bytes s ->
+  fmapr inj_bytes (run_flat (C06gen.packet_String_ReadFrom_io varint_rd) s) = run_flat (read_f fuel TString old) s)
+  /\
+  (forall fuel bs0 sp0 s, all_bytes s ->
   fmapr inj_slice (run_flat (C06gen.packet_ByteArray_ReadFrom_io varint_rd (map Z.of_N bs0) (map Z.of_N sp0)) s)
-  = run_flat (read_f fuel TByteArray (VBytes bs0 sp0)) s.
-Proof. intros fuel bs0 sp0 s. exact (tie_ByteArray_read bs0 sp0 s). Qed.
-Theorem C06_BitSet_read_translated : forall fuel old (b sp : list Z) s, all_bytes s ->
+  = run_flat (read_f fuel TByteArray (VBytes bs0 sp0)) s)
+  /\
+  (forall fuel old (b sp : list Z) s, all_bytes s ->
   (forall l n rest, run_flat read32 s = FOk (l, n) rest -> (Z.to_nat l <= fuel)%nat) ->
-  fmapr inj_bitset (run_flat (C06gen.packet_BitSet_ReadFrom_io varint_rd b sp) s) = run_flat (read_f fuel TBitSet old) s.
-Proof. exact tie_BitSet_read. Qed.
+  fmapr inj_bitset (run_flat (C06gen.packet_BitSet_ReadFrom_io varint_rd b sp) s) = run_flat (read_f fuel TBitSet old) s).
+Proof.
+  repeat split.
+  - intros fuel old s. exact (tie_String_read s).
+  - intros fuel bs0 sp0 s. exact (tie_ByteArray_read bs0 sp0 s).
+  - exact tie_BitSet_read.
+Qed.
 Theorem C06_FixedBitSet_read_translated : forall old s, all_bytes s -> (lenN old < 2 ^ 63)%N ->
   fmapr inj_fbs (run_flat (C06gen.packet_FixedBitSet_ReadFrom_io (map Z.of_N old)) s) = run_flat (r_fixedbitset old) s.
 Proof. exact tie_FixedBitSet_read. Qed.
@@ -431,40 +486,8 @@ Print Assumptions C06_fixedbitset.
 Print Assumptions C06_plugin.
 Print Assumptions C06_position_pack_translated.
 Print Assumptions C06_position_unpack_translated.
-Print Assumptions C06_Boolean_write_translated.
-Print Assumptions C06_Byte_write_translated.
-Print Assumptions C06_UnsignedByte_write_translated.
-Print Assumptions C06_Short_write_translated.
-Print Assumptions C06_UnsignedShort_write_translated.
-Print Assumptions C06_Int_write_translated.
-Print Assumptions C06_Long_write_translated.
-Print Assumptions C06_Float_write_translated.
-Print Assumptions C06_Double_write_translated.
-Print Assumptions C06_Angle_write_translated.
-Print Assumptions C06_VarInt_write_translated.
-Print Assumptions C06_VarLong_write_translated.
 Print Assumptions C06_Position_write_translated.
-Print Assumptions C06_UUID_write_translated.
-Print Assumptions C06_String_write_translated.
-Print Assumptions C06_ByteArray_write_translated.
-Print Assumptions C06_PluginMessageData_write_translated.
-Print Assumptions C06_FixedBitSet_write_translated.
-Print Assumptions C06_Boolean_read_translated.
-Print Assumptions C06_Byte_read_translated.
-Print Assumptions C06_UnsignedByte_read_translated.
-Print Assumptions C06_Short_read_translated.
-Print Assumptions C06_UnsignedShort_read_translated.
-Print Assumptions C06_Int_read_translated.
-Print Assumptions C06_Long_read_translated.
-Print Assumptions C06_Float_read_translated.
-Print Assumptions C06_Double_read_translated.
-Print Assumptions C06_Angle_read_translated.
-Print Assumptions C06_UUID_read_translated.
 Print Assumptions C06_Position_read_translated.
-Print Assumptions C06_String_read_translated.
-Print Assumptions C06_ByteArray_read_translated.
-Print Assumptions C06_BitSet_read_translated.
-Print Assumptions C06_BitSet_write_translated.
 Print Assumptions C06_FixedBitSet_read_translated.
 Print Assumptions C06_skeleton_readByte.
 Print Assumptions C06_skeleton_PluginMessageData_ReadFrom.
@@ -513,3 +536,8 @@ Print Assumptions C06_tuple_read_is_skeleton.
 Print Assumptions C06_tuple_write_is_skeleton.
 Print Assumptions C06_scan_trailing.
 Print Assumptions C06_nbtfield_allow_is_skeleton.
+Print Assumptions C06_fixed_write_translated.
+Print Assumptions C06_rawbytes_write_translated.
+Print Assumptions C06_fixed_read_translated.
+Print Assumptions C06_lenprefixed_write_translated.
+Print Assumptions C06_lenprefixed_read_translated.
